@@ -35,6 +35,21 @@ def _tmpdir():
     return harness.tmpdir()
 
 
+def _interface():
+    """the deprecated alias module of the same functions (still importable, still documented as equivalent)"""
+    import importlib
+    import warnings
+    with warnings.catch_warnings():
+        warnings.simplefilter('ignore')
+        return importlib.import_module('penman.interface')
+
+
+def _late_codec(m):
+    c = penman.PENMANCodec()
+    c.model = m             # a public attribute: what the codec decodes and encodes with
+    return c
+
+
 def _gsig(g):
     return (g.top, list(g.triples),
             sorted(((t, [graphm.marker_to_json(m) for m in ms]) for t, ms in g.epidata.items() if ms), key=repr),
@@ -88,6 +103,8 @@ def check(case):
     spec = case['model']
     m = build_model(spec)
     for gspec in case['graphs']:
+        if gspec['tree'][0] is None and not gspec['tree'][1]:
+            continue            # the empty graph "()", which may carry metadata like any other
         if interp.wellformed(interp.to_node(gspec['tree']), spec) is not None:
             return []
     f = []
@@ -98,11 +115,17 @@ def check(case):
             for t0 in penman.iterparse(text):
                 t0.metadata['__scribble'] = 'x'
                 t0.node[1].reverse()
-                t0.reset_variables('q{i}')
+                if t0.node[0] is not None:
+                    t0.reset_variables('q{i}')
             g0s = penman.loads(text, model=m)
             for g0 in g0s:
                 g0.metadata['__scribble'] = 'x'
                 g0.triples.reverse()
+                for ms0 in g0.epidata.values():
+                    for mk0 in ms0:
+                        if hasattr(mk0, 'indices'):
+                            mk0.indices = (99,)        # markers of an earlier result belong to the caller as well
+                            mk0.prefix = 'zz.'
             for chunk in [text] if len(text) < 4000 else []:
                 t1 = penman.parse(chunk) if case['graphs'] else None
                 if t1 is not None:
@@ -142,6 +165,9 @@ def check(case):
         ('list(iterparse)+interpret', lambda: [layout.interpret(t, m) for t in list(penman.iterparse(text))]),
         ('list(codec.iterparse)+interpret', lambda: [layout.interpret(t, m) for t in list(penman.PENMANCodec(model=m).iterparse(klines))]),
         ('list(codec.iterdecode)', lambda: list(penman.PENMANCodec(model=m).iterdecode(lines))),
+        ('codec.model assigned after construction', lambda: list(_late_codec(m).iterdecode(text))),
+        ('penman.interface.loads', lambda: _interface().loads(text, model=m)),
+        ('penman.interface.load(path)', lambda: _interface().load(path, model=m, encoding='utf-8')),
     ]
     if len(case['graphs']) * (case.get('repeat') or 1) == 1 and not case.get('bom'):
         containers.append(('decode', lambda: [penman.decode(text, model=m)]))
@@ -177,11 +203,28 @@ def check(case):
         back = _outcome(lambda: penman.loads(s, model=m))
         if back != ('ok', want):
             f.append(('dumps-loads', '%s -> %s' % (short(s, 200), short(back, 300))))
+        # graphs handed over as a one-shot iterator (documented: an iterable of graphs), through the codec object whose
+        # model was assigned after construction, and through the deprecated alias module
+        for how, s2 in (('iterator', penman.dumps(iter(gs), model=m, indent=case['indent'], compact=case['compact'])),
+                        ('generator', penman.dumps((g_ for g_ in gs), model=m, indent=case['indent'], compact=case['compact'])),
+                        ('penman.interface.dumps', _interface().dumps(gs, model=m, indent=case['indent'], compact=case['compact']))):
+            if s2 != s:
+                f.append(('dumps-variants', 'dumps of a list gives %s, %s gives %s' % (short(s, 200), how, short(s2, 200))))
+                break
         p2 = os.path.join(d, 'out.txt')
+        p5 = os.path.join(d, 'out5.txt')
+        _interface().dump(iter(gs), p5, model=m, indent=case['indent'], compact=case['compact'], encoding='utf-8')
+        back = _outcome(lambda: penman.load(p5, model=m, encoding='utf-8'))
+        if back != ('ok', want):
+            f.append(('dump-load-file', 'penman.interface.dump of an iterator: %s' % short(back, 300)))
         penman.dump(gs, p2, model=m, indent=case['indent'], compact=case['compact'], encoding='utf-8')
         back = _outcome(lambda: penman.load(p2, model=m, encoding='utf-8'))
         if back != ('ok', want):
             f.append(('dump-load-file', '%s -> %s' % (short(open(p2, encoding='utf-8', newline='').read(), 200), short(back, 300))))
+        late = '\n\n'.join(_late_codec(m).encode(g_, indent=case['indent'], compact=case['compact']) for g_ in gs)
+        back = _outcome(lambda: penman.loads(late, model=m))
+        if back != ('ok', want):
+            f.append(('late-codec-encode-loads', '%s -> %s' % (short(late, 200), short(back, 300))))
         # a pathlib.Path target and a non-default encoding, the same on both sides
         enc = case.get('enc') or 'utf-8'
         try:
@@ -226,6 +269,7 @@ def classes(case):
     if any(g.get('meta') for g in case['graphs']): out.append('metadata')
     if _special_meta(case): out.append('metadata:special-chars')
     if any(g.get('rawcomments') for g in case['graphs']): out.append('raw-comment-lines')
+    if any(g['tree'][0] is None for g in case['graphs']): out.append('empty-graph-in-stream')
     if case.get('gap') and any(g.get('meta') or g.get('rawcomments') for g in case['graphs']): out.append('blank-line-inside-or-after-comment-block')
     if case.get('enc'): out.append('file-encoding:' + case['enc'])
     if any(v == '' for g in case['graphs'] for v in (g.get('meta') or {}).values()): out.append('metadata:empty-value')
@@ -245,6 +289,8 @@ def _cases(draw):
         if draw(st.integers(0, 5)) == 0:
             g['meta'] = {}
             g['rawcomments'] = draw(st.lists(st.sampled_from(RAW), min_size=1, max_size=2))
+        if draw(st.integers(0, 11)) == 0:
+            g = {'tree': [None, []], 'meta': draw(trees.metadata())}
         gs.append(g)
     return {'graphs': gs, 'model': spec, 'term': draw(st.sampled_from(['LF', 'CRLF', 'CR'])),
             'sep': draw(st.sampled_from(['blank', 'newline', 'space', 'none'])),
